@@ -10,7 +10,13 @@ oracle:     written from the property text, independent of the Lean model:
                 to the output directory and the cache directory only;
             (c) uncached / cached-cold / cached-warm / edited-then-cached runs give identical rc, stdout,
                 stderr and output trees for all eight targets;
-            (d) an unpickled symbol table answers the derived id-set queries like the original.
+            (d) an unpickled symbol table answers the derived id-set queries like the original;
+            (d') the symbol table that a WARM cache returns (real load_model: uncached / cold / warm in a redirected
+                temp directory) answers EVERY id-set / by-name backed query of every class — abstract ones in
+                hierarchies of depth >= 3 with abstract middles included — like the uncached one (the query dump of
+                the C05 check, harness/props/c05.py, is reused), and the generators that consult these queries
+                (type inference of co-variant assignments in verification functions, is_subclass_of, …) give the
+                same rc / stdout / stderr / output tree from a warm cache.
 """
 from __future__ import annotations
 
@@ -374,6 +380,310 @@ def check_unpickled(ctx: Ctx, case: str) -> None:
         ctx.fail(inp, f"{case}: unpickled symbol table answers id-set queries differently: {keys[:4]}", "C23:unpickled-idset-differs:" + keys[0].split(".")[-1])
     if clone.atok.text != atok.text:
         ctx.fail(inp, f"{case}: unpickled atok has another text", "C23:unpickled-atok-differs")
+    wa, wb = full_walk(stbl), full_walk(clone.symbol_table)
+    if wa != wb and a == b:
+        diff = walk_diff(wa, wb)
+        ctx.fail(inp, f"{case}: unpickled symbol table answers differently at {diff[:6]}", "C23:unpickled-query-differs:" + (diff[0] if diff else "?").split(".")[-1].split(":")[-1])
+
+
+# --------------------------------------------------------------------------- (d') warm cache: every id-set backed query
+#
+# Strengthening after the seeded change C23-1 (`Class.__setstate__` fed `_compute_descendant_id_set` with the CONCRETE
+# descendants): the difference only shows (i) on a table that really came out of the cache, (ii) for a class that has an
+# ABSTRACT descendant, (iii) through `descendant_id_set` (or what the generators derive from it).  None of the fixtures
+# under dev/test_data/common_meta_models has an abstract class beneath another class.
+
+
+def full_walk(stbl: Any) -> Dict[str, Any]:
+    """Every query of a symbol table that is answered from a derived (`*_id_set`, `*_by_name`) attribute, with ids turned
+    into structural names: the stacked lists (c05.dump_real), the public id-set/by-name API of every class and interface
+    (c05.dump_ext: inheritance/ancestor/descendant/concrete-descendant id sets, is_subclass_of for ALL pairs,
+    properties_by_name, methods_by_name, property/method/invariant id sets, interface implementers) and the raw
+    attributes of every type, constant and interface."""
+    from harness.props import c05
+
+    out: Dict[str, Any] = {}
+    for key, fn in (("lists", c05.dump_real), ("queries", c05.dump_ext), ("raw", raw_view)):
+        try:
+            out[key] = fn(stbl)
+        except BaseException as e:  # noqa
+            out[key] = f"crash:{type(e).__name__}"
+    return out
+
+
+def raw_view(stbl: Any) -> Dict[str, Any]:
+    """`*_id_set` and `*_by_name` attributes of every our type, constant and interface, ids as structural paths."""
+    reg = _registry(stbl)
+    owners: List[Tuple[str, Any]] = []
+    for t in stbl.our_types:
+        owners.append((f"{type(t).__name__}:{t.name}", t))
+        i = getattr(t, "interface", None)
+        if i is not None:
+            owners.append((f"Interface:{t.name}", i))
+            for k, x in enumerate(getattr(i, "properties", []) or []):
+                reg.setdefault(id(x), f"Class:{t.name}/iface-properties[{k}]")
+    for c in getattr(stbl, "constants", []) or []:
+        owners.append((f"{type(c).__name__}:{c.name}", c))
+        for k, x in enumerate(getattr(c, "literals", []) or []):
+            reg.setdefault(id(x), f"const:{c.name}/literals[{k}]")
+    out: Dict[str, Any] = {}
+    for label, o in owners:
+        for name, val in sorted(vars(o).items()):
+            if name.endswith("_id_set"):
+                out[f"{label}.{name}"] = sorted(reg.get(i, "?") for i in val)
+            elif name.endswith("_by_name") and isinstance(val, dict):
+                out[f"{label}.{name}"] = [f"{k}->{reg.get(id(v), '?')}" for k, v in val.items()]
+    return out
+
+
+def walk_diff(a: Dict[str, Any], b: Dict[str, Any]) -> List[str]:
+    """Paths at which two walks differ (class.key), most specific first."""
+    out: List[str] = []
+    for part in sorted(set(a) | set(b)):
+        x, y = a.get(part), b.get(part)
+        if x == y:
+            continue
+        if not isinstance(x, dict) or not isinstance(y, dict):
+            out.append(part)
+            continue
+        if part == "raw":
+            out += [f"raw:{k}" for k in sorted(set(x) | set(y)) if x.get(k) != y.get(k)]
+            continue
+        cx, cy = x.get("classes", {}), y.get("classes", {})
+        for n in sorted(set(cx) | set(cy)):
+            ex, ey = cx.get(n, {}), cy.get(n, {})
+            out += [f"{part}:{n}.{k}" for k in sorted(set(ex) | set(ey)) if ex.get(k) != ey.get(k)]
+        out += [f"{part}:{k}" for k in sorted(set(x) | set(y)) if k != "classes" and x.get(k) != y.get(k)]
+    return out
+
+
+def loads_three(text: str, root: pathlib.Path) -> Dict[str, Any]:
+    """uncached, cold and warm result of the real load_model on ``text`` (temp directory redirected to ``root``/tmp)."""
+    from aas_core_codegen import run
+
+    root.mkdir(parents=True, exist_ok=True)
+    model = root / "meta_model.py"
+    model.write_text(text, encoding="utf-8")
+    td = root / "tmp"
+    td.mkdir(exist_ok=True)
+    saved = tempfile.tempdir
+    tempfile.tempdir = str(td)
+    out: Dict[str, Any] = {}
+    try:
+        for step, flag in (("uncached", False), ("cold", True), ("warm", True)):
+            try:
+                out[step] = run.load_model(model, cache_model=flag)
+            except BaseException as e:  # noqa
+                out[step] = f"crash:{type(e).__name__}"
+    finally:
+        tempfile.tempdir = saved
+    entries = sorted(p.name for d in td.iterdir() if d.is_dir() for p in d.iterdir())
+    out["entries"] = entries
+    return out
+
+
+_PER_SIG: Dict[str, Tuple[int, int]] = {}
+
+
+def _fail_few(ctx: Ctx, inp: Dict[str, Any], what: str, sig: str) -> None:
+    """ctx.fail, but only a few (and the smallest) inputs per root cause: the runner keeps at most 200 failures."""
+    size = len(json.dumps(inp))
+    n, smallest = _PER_SIG.get(sig, (0, 1 << 60))
+    if n >= 5 and size >= smallest:
+        return
+    _PER_SIG[sig] = (n + 1, min(size, smallest))
+    ctx.fail(inp, what, sig)
+
+
+def warm_walk(ctx: Ctx, label: str, text: str, stream: str) -> None:
+    root = ctx.scratch() / f"walk-{ctx.evaluations}"
+    res = loads_three(text, root)
+    shutil.rmtree(root, ignore_errors=True)
+    inp = {"kind": "warmwalk", "label": label, "text": text}
+    ctx.count(("warmwalk", text), stream=stream)
+    un = res["uncached"]
+    if isinstance(un, str) or un[1] is not None:
+        # not an accepted model (or the front end crashes on it also without the cache): all three must agree on that
+        ctx.hit("walk=rejected")
+        for step in ("cold", "warm"):
+            got = res[step]
+            same = got == un if isinstance(un, str) or isinstance(got, str) else got[1] == un[1]
+            if not same:
+                _fail_few(ctx, inp, f"{label}: the {step} cached load of a rejected model does not give the error of the uncached load", f"C23:not-transparent:load:{step}-rejected")
+        return
+    ref = full_walk(un[0][0])
+    depth_abs = _abstract_below_abstract(un[0][0])
+    ctx.hit("walk=accepted")
+    if depth_abs:
+        ctx.hit("walk=abstract-class-with-abstract-descendant")
+    if want := f"model-{hashlib.sha256(text.encode()).hexdigest()}.pickle":
+        if res["entries"] != [want]:
+            _fail_few(ctx, inp, f"{label}: after a cold and a warm load the cache directory holds {res['entries'][:3]}, expected only {want[:22]}…", "C23:entry-not-keyed-by-text-hash")
+    for step in ("cold", "warm"):
+        got = res[step]
+        if isinstance(got, str) or got[1] is not None:
+            what = got if isinstance(got, str) else "an error report"
+            _fail_few(ctx, inp, f"{label}: the {step} cached load of an accepted model gives {what}", f"C23:not-transparent:load:{step}")
+            continue
+        if got[0][1].text != un[0][1].text:
+            _fail_few(ctx, inp, f"{label}: the {step} cached load returns the source text of another model", "C23:unpickled-atok-differs")
+        walk = full_walk(got[0][0])
+        if walk != ref:
+            diff = walk_diff(ref, walk)
+            first = diff[0] if diff else "?"
+            key = first.split(".")[-1].split(":")[-1]
+            _fail_few(ctx, inp, f"{label}: the symbol table of the {step} cached load answers differently from the uncached one at {diff[:6]}"
+                     + _explain_walk(ref, walk, first), f"C23:{step}-table-differs:{key}")
+
+
+def _explain_walk(ref: Dict[str, Any], got: Dict[str, Any], path: str) -> str:
+    try:
+        part, rest = path.split(":", 1)
+        if part == "raw":
+            return f" (uncached {ref['raw'].get(rest)}, cached {got['raw'].get(rest)})"
+        n, k = rest.rsplit(".", 1)
+        return f" (uncached {ref[part]['classes'][n][k]}, cached {got[part]['classes'][n][k]})"
+    except BaseException:  # noqa
+        return ""
+
+
+def _abstract_below_abstract(stbl: Any) -> bool:
+    from aas_core_codegen import intermediate
+
+    for c in stbl.classes:
+        if any(isinstance(d, intermediate.AbstractClass) for d in c.descendants):
+            return True
+    return False
+
+
+# ---- models with deep hierarchies and abstract middles
+
+FAMILIES: Dict[str, List[Tuple[str, List[str], bool]]] = {
+    # (name, parents, abstract) in declaration order
+    "chain3-abstract-middle": [("Node", [], True), ("Branch", ["Node"], True), ("Leaf", ["Branch"], False)],
+    "chain4-abstract-middles": [("Node", [], True), ("Branch", ["Node"], True), ("Twig", ["Branch"], True), ("Leaf", ["Twig"], False), ("Bud", ["Branch"], False)],
+    "chain4-concrete-root": [("Node", [], False), ("Branch", ["Node"], True), ("Twig", ["Branch"], False), ("Leaf", ["Twig"], True), ("Bud", ["Leaf"], False)],
+    "diamond-abstract-sides": [("Node", [], True), ("Left", ["Node"], True), ("Right", ["Node"], True), ("Leaf", ["Left", "Right"], False), ("Bud", ["Left"], False)],
+}
+
+
+def family_model(spec: List[Tuple[str, List[str], bool]], with_functions: bool = True, cprims: bool = True, max_pairs: int = 12) -> str:
+    """A meta-model over the hierarchy ``spec``; with ``with_functions`` also one ``@verification`` function per
+    (ancestor, descendant) pair that assigns a descendant to an ancestor-typed variable (type inference consults
+    ``descendant_id_set`` at generation time) and a container class whose invariants call them; with ``cprims`` the same
+    for a chain of constrained primitives."""
+    from harness.props import c05
+
+    names = [n for n, _, _ in spec]
+    kids = {n: [m for m, ps, _ in spec if n in ps] for n in names}
+    h = c05.canonical_ctors([c05.mk_class(n, ps, abstract=a, props=1, wmt=(True if kids[n] else None)) for n, ps, a in spec])
+    body = c05.render(h)
+    cut = body.index('__version__ = "dummy"')
+    head, tail = body[:cut], body[cut:]
+    anc = c05.closure(h)
+    by = {c["name"]: c for c in h}
+    extra: List[str] = []
+    fields: List[Tuple[str, str]] = []
+    invs: List[str] = []
+    if cprims:
+        extra += [
+            '@invariant(lambda self: len(self) > 0, "At least one character")', "class Some_id(str, DBC):", "    pass", "", "",
+            '@invariant(lambda self: len(self) < 100, "Less than 100 characters")', "class Short_id(Some_id, DBC):", "    pass", "", "",
+            '@invariant(lambda self: len(self) < 10, "Less than 10 characters")', "class Tiny_id(Short_id, DBC):", "    pass", "", "",
+        ]
+        fields += [("some_id", "Some_id"), ("short_id", "Short_id"), ("tiny_id", "Tiny_id")]
+        if with_functions:
+            for a, d in (("Some_id", "Short_id"), ("Some_id", "Tiny_id"), ("Short_id", "Tiny_id")):
+                fn = f"{a.lower()}_or_{d.lower()}_is_set"
+                extra += ["@verification", f"def {fn}(x: {a}, y: {d}) -> bool:", "    v = x", "    v = y", "    return len(v) > 0", "", ""]
+                invs.append(f'@invariant(lambda self: {fn}(self.{a.lower()}, self.{d.lower()}), "{fn} holds")')
+    if with_functions:
+        pairs = [(a, d) for d in names for a in names if a in anc[d]]
+        # abstract descendants first: they are what a recomputation from the concrete descendants loses
+        pairs.sort(key=lambda ad: (not by[ad[1]]["abstract"], names.index(ad[0]), names.index(ad[1])))
+        for a, d in pairs[:max_pairs]:
+            prop = by[a]["props"][0]
+            test = f"len(v.{prop}) > 0" if c05.prop_type(prop) == "str" else f"v.{prop} > 0"
+            fn = f"{a.lower()}_or_{d.lower()}_is_set"
+            extra += ["@verification", f"def {fn}(x: {a}, y: {d}) -> bool:", "    v = x", "    v = y", f"    return {test}", "", ""]
+            invs.append(f'@invariant(lambda self: {fn}(self.the_{a.lower()}, self.the_{d.lower()}), "{fn} holds")')
+    fields += [(f"the_{n.lower()}", n) for n in names]
+    extra += invs + ["class Container(DBC):"] + [f"    {f}: {t}" for f, t in fields] + [""]
+    extra += ["    def __init__(self" + "".join(f", {f}: {t}" for f, t in fields) + ") -> None:"] + [f"        self.{f} = {f}" for f, t in fields] + ["", ""]
+    return head + "\n".join(extra) + "\n" + tail
+
+
+def walk_models(ctx: Ctx) -> List[Tuple[str, str, str]]:
+    """(stream, label, model text) for the warm-cache walk: the hand-made families, ENUMERATED hierarchies (every DAG on 3
+    classes x every abstract mask, every DAG on 4 classes x the masks with abstract middles, chains of 5), the fixtures
+    and seeded random hierarchies."""
+    from harness.props import c05
+
+    out: List[Tuple[str, str, str]] = []
+    for name, spec in FAMILIES.items():
+        out.append(("walk-families", name, family_model(spec)))
+        out.append(("walk-families", name + "-plain", family_model(spec, with_functions=False, cprims=False)))
+    nm = list(c05.NAMES[:5])
+    for edges in c05.shapes(3):
+        for mask in range(8):
+            out.append(("walk-enumerated", f"dag3-{edges}-m{mask}", c05.render(c05.build(nm[:3], edges, mask, False, rich=mask % 3))))
+    masks4 = [0b0110, 0b0111, 0b0011, 0b1110] if ctx.tier == "quick" else list(range(16))
+    for edges in c05.shapes(4):
+        if ctx.tier == "quick" and len(edges) < 2:
+            continue
+        for mask in masks4:
+            out.append(("walk-enumerated", f"dag4-{edges}-m{mask}", c05.render(c05.build(nm[:4], edges, mask, False, rich=mask % 3))))
+    chain5 = [(0, 1), (1, 2), (2, 3), (3, 4)]
+    for mask in ([0b01110, 0b01111, 0b00101, 0b01010] if ctx.tier == "quick" else range(32)):
+        out.append(("walk-enumerated", f"chain5-m{mask}", c05.render(c05.build(nm, chain5, mask, False, rich=1))))
+    for case in ["enum", "constrained_primitives", "deep_class_hierarchy", "list_of_classes", "list_of_enums", "list_of_constrained_primitives", "list_of_primitives", "primitive_types"]:
+        fp = REPO / "dev" / "test_data" / "common_meta_models" / f"{case}.py"
+        if fp.exists():
+            out.append(("walk-fixtures", case, fp.read_text(encoding="utf-8")))
+    for k in range(ctx.n(25, 400)):
+        out.append(("walk-random", f"random-{k}", c05.render(c05.random_hier(ctx, 9))))
+    return out
+
+
+def gen_history(ctx: Ctx, target: str, label: str, text: str) -> None:
+    """uncached / cold / warm / warm again / uncached real ``main.execute`` on ``text`` for one target: everything a
+    generator derives from the id-set backed queries must come out the same from a warm cache."""
+    fx = fixture(target, "enum")
+    if fx is None:
+        return
+    snippets = fx[1]
+    root = ctx.scratch() / f"gen-{target}-{ctx.evaluations}"
+    root.mkdir(parents=True)
+    model = root / "meta_model.py"
+    model.write_text(text, encoding="utf-8")
+    inp = {"kind": "genwalk", "target": target, "label": label, "text": text}
+    ref: Optional[Dict[str, Any]] = None
+    for k, (name, flag) in enumerate([("uncached", False), ("cold", True), ("warm", True), ("warm-again", True), ("uncached-after", False)]):
+        out = root / f"out{k}"
+        out.mkdir()
+        td = root / "tmp" if flag else root / f"tmp-off-{k}"
+        res = execute_audited(target, model, snippets, out, flag, td)
+        ctx.count((target, text, name), stream="generation-from-warm-cache")
+        ctx.hit(f"gen-rc={res['rc']}")
+        for sig, what in judge_events(res, flag, out, td):
+            ctx.fail(inp, f"{target}/{label} step {name}: {what}", f"C23:{sig}")
+        obs = {x: res[x] for x in ("rc", "stdout", "stderr", "tree")}
+        if isinstance(res["rc"], str):
+            obs = {"rc": res["rc"], "stdout": "", "stderr": "", "tree": {}}
+        if ref is None:
+            ref = obs
+            continue
+        if obs != ref:
+            diff = [x for x in obs if obs[x] != ref[x]]
+            detail = ""
+            if "stderr" in diff:
+                detail = " stderr: " + " ".join(str(obs["stderr"]).split())[:240]
+            elif "tree" in diff:
+                files = sorted(set(obs["tree"]) | set(ref["tree"]))
+                detail = " files: " + ", ".join(f for f in files if obs["tree"].get(f) != ref["tree"].get(f))[:200]
+            ctx.fail(inp, f"{target}/{label} step {name} (cache_model={flag}) differs from the uncached run of the same text in {diff} (rc {obs['rc']} vs {ref['rc']}){detail}",
+                     f"C23:not-transparent:{name}:{'+'.join(diff)}")
+    shutil.rmtree(root, ignore_errors=True)
 
 
 # --------------------------------------------------------------------------- CLI in a fresh process
@@ -491,7 +801,7 @@ def oracle(ctx: Ctx) -> None:
         check_plumbing(ctx, False)
         _sequential(ctx, False)
     for c in corpus(ID):
-        if c.get("kind") in ("history", "cli", "idsets", "plumb"):
+        if c.get("kind") in ("history", "cli", "idsets", "plumb", "warmwalk", "genwalk"):
             replay(ctx, c)
     cases = ["enum", "constrained_primitives"] if ctx.tier == "quick" else ["enum", "constrained_primitives", "deep_class_hierarchy", "list_of_classes", "list_of_primitives", "list_of_enums"]
     for target in TARGETS:
@@ -499,6 +809,13 @@ def oracle(ctx: Ctx) -> None:
             history(ctx, target, case, edit=(case == cases[0] or ctx.tier == "thorough"))
     for case in ["enum", "constrained_primitives", "deep_class_hierarchy", "list_of_classes", "list_of_enums", "list_of_constrained_primitives"]:
         check_unpickled(ctx, case)
+    # (d') warm cache: the id-set walk on hierarchies with abstract middles, and the generators on top of it
+    for stream, label, text in walk_models(ctx):
+        warm_walk(ctx, label, text, stream)
+    fams = ["chain4-abstract-middles"] if ctx.tier == "quick" else list(FAMILIES)
+    for fam in fams:
+        for target in TARGETS:
+            gen_history(ctx, target, fam, family_model(FAMILIES[fam]))
     cli_history(ctx, "python", "enum")
     if ctx.tier == "thorough":
         check_unpickled(ctx, "aas_core_meta.v3")
@@ -526,6 +843,10 @@ def replay(ctx: Ctx, data: Dict[str, Any]) -> Any:
         cli_history(ctx, inp["target"], inp["case"])
     elif kind == "idsets":
         check_unpickled(ctx, inp["case"])
+    elif kind == "warmwalk":
+        warm_walk(ctx, inp.get("label", "replay"), inp["text"], "replay")
+    elif kind == "genwalk":
+        gen_history(ctx, inp["target"], inp.get("label", "replay"), inp["text"])
     else:
         return {"error": "unknown replay kind"}
     res["oracle"] = [(f["sig"], f["what"]) for f in ctx.failures[before:]]
